@@ -12,6 +12,7 @@ pub mod c16;
 pub mod c17;
 pub mod c19;
 pub mod ms;
+pub mod stake;
 
 pub fn get(id: &str) -> Option<Box<dyn Monitor>> {
     match id {
@@ -24,6 +25,7 @@ pub fn get(id: &str) -> Option<Box<dyn Monitor>> {
         "C07" => Some(Box::new(c07::C07)),
         "C08" => Some(Box::new(c08::C08)),
         "C09" => Some(Box::new(c09::C09)),
+        "C10" => Some(Box::new(stake::Stake { prop: "C10" })),
         "C13" => Some(Box::new(c13::C13)),
         "C14" => Some(Box::new(c14::C14)),
         "C15" => Some(Box::new(ms::Ms { prop: "C15" })),
